@@ -311,7 +311,7 @@ func describeFx(p string) string {
 // destinations of one Scan call (id column and point fields).
 func c01LockStep(c *kit.Ctx, wl *writerLoop, r3 *kit.Rule) {
 	f := wl.f
-	o := r3.Ob(f, wl.dbLoop, wl.w.Table+": stored ids in lock-step", "ids[j] is the row id scanned with points[j]")
+	o := r3.Ob(f, wl.searchAnchor, wl.w.Table+": stored ids in lock-step", "ids[j] is the row id scanned with points[j]")
 	if wl.dbIDs == nil {
 		o.Violation("no write re-uses a stored row id (no append of <ids>[<stored index>] on the reuse path)")
 		return
